@@ -454,6 +454,17 @@ class simplify_chained_calls(FuncADLNodeTransformer):
         else:
             return FuncADLNodeTransformer.visit_Call(self, call_node)
 
+    def visit_Lambda(self, node: ast.Lambda):
+        """The parameters of a lambda hide, inside its body, the arguments of any lambda
+        call being evaluated that have the same name."""
+        l_args = node.args
+        all_args = l_args.posonlyargs + l_args.args + l_args.kwonlyargs
+        all_args += [a for a in (l_args.vararg, l_args.kwarg) if a is not None]
+        with stack_frame(self._arg_stack):
+            for a in all_args:
+                self._arg_stack.define_name(a.arg, ast.Name(a.arg, ast.Load()))
+            return self.generic_visit(node)
+
     def visit_Subscript_Tuple(self, v: ast.Tuple, s: ast.Constant):
         """
         (t1, t2, t3...)[1] => t2
